@@ -201,6 +201,8 @@ def phf : P HfArgs := do
   let st ← pcount (do let i ← pnat; let j ← pnat; let b ← pnat; pure (i, j, b)) ns
   pure ⟨nr, nc, hs.toArray, sc, st⟩
 
+def HfArgs.model (h : HfArgs) : HeightField3 Float := ⟨h.nr, h.nc, h.hs, h.sc, h.st⟩
+
 /-- status bits of cell `(i, j)`: the last `set_cell_status` wins -/
 def HfArgs.status (h : HfArgs) (i j : Nat) : Nat :=
   h.st.foldl (fun acc (e : Nat × Nat × Nat) => if e.1 = i ∧ e.2.1 = j then e.2.2 else acc) 0
@@ -418,13 +420,15 @@ def handlerComposite (fn : String) : Option Handler :=
       oracle := fun a o => withArgs (do let b ← paabb; let o ← pv3; let d ← pv3; let m ← pf; pure (b, o, d, m)) a fun (b, ro, rd, m) =>
         if !(finite3 b.mins && finite3 b.maxs && finite3 ro && finite3 rd) || m.isNaN then "skip non-finite-input" else
         simdAabbOracle (q3 b.mins) (q3 b.maxs) (q3 ro) (q3 rd) (if FloatIO.isFinite m then some (q m) else none) o }
-  -- composite shapes: grid walk / best-first BVH traversal not modelled here (relations.json: kind none); exact brute-force oracle
+  -- 3-D heightfield: modelled (grid walk with fuel), bit-exact; oracle = exact brute force over the triangles
   | "rc_hf3" => some {
-      model := fun _ => some "composite-not-modelled"
+      model := fun a => run (do let h ← phf; let ra ← pray
+                                pure (fhit (h.model.castLocalRayAndGetNormal bigF ra.ray ra.max ra.solid))) a
       oracle := fun a o => withArgs (do let h ← phf; let ra ← pray; pure (h, ra)) a fun (h, ra) =>
         soupOracle h.triangles (q3 ra.o) (q3 ra.d) ra.maxQ false none (parseOut o) h.exactGeom }
   | "rc_hf3_posed" => some {
-      model := fun _ => some "composite-not-modelled"
+      model := fun a => run (do let h ← phf; let m ← piso3; let ra ← pray
+                                pure (fhit (h.model.castRayAndGetNormal bigF m ra.ray ra.max ra.solid))) a
       oracle := fun a o => withArgs (do let h ← phf; let m ← piso3; let ra ← pray; pure (h, m, ra)) a fun (h, m, ra) =>
         let M := qiso3 m
         -- judged in the local frame: exact inverse transform of the ray; the world normal is pulled back exactly
@@ -446,6 +450,7 @@ def handlerComposite (fn : String) : Option Handler :=
              if on.any (fun T => decide ((nl.cross T.N).normSq ≤ sqr (1 / 1000000) * T.N.normSq)) then "pass"
              else "fail normal-not-a-normal-of-the-hit-triangle")
         | _ => "pass" }
+  -- BVH-based composites: best-first traversal not modelled here (relations.json: kind none); exact brute-force oracle
   | "rc_trimesh" => some {
       model := fun _ => some "composite-not-modelled"
       oracle := fun a o => withArgs (do let m ← pmesh; let ra ← pray; pure (m, ra)) a fun (m, ra) => meshOracle m ra o }
